@@ -231,6 +231,9 @@ def r4(ctx):
             for s in blk["s"] + [blk["t"]]:
                 if any(o.get("k") == "const" and o.get("from") == ROOT for o in walk_operands(s)):
                     uses.append((k, bi))
+    if not any(b["crate"].startswith("chess_cli") for b in P.fns.values()):
+        ctx.note("chess_cli is not part of this configuration: no consumer of the book to examine")
+        return
     ctx.floor("uses of the root book cursor", len(uses), 1)
     for k, bi in uses:
         ctx.used_body(k)
